@@ -68,14 +68,15 @@ package container
 //@ func container.(*containerServer).serve props C10 C16
 //@   arith int
 //@   requires P.st == 0
-//@   assigns P.st, S._all, FD._all, W._all, K._all, O._all
+//@   assigns P.st, S._all, FD._all, W._all, K._all, O._all, R._all
+//@   ensures @C16 result != nil
 //@   loop 0: invariant P.st == 0 || P.st == 9
 
 //@ func container.(*containerServer).handleCmd props C10
 //@   arith int
 //@   requires P.st == recv_next(0, int(cmd.Cmd))
 //@   requires int(cmd.Cmd) == 5 ==> (cmd.ExecCmd != nil && len(msg.Fds) < 1048576 && (cmd.ExecCmd.Seccomp == nil || (len(cmd.ExecCmd.Seccomp) >= 1 && len(cmd.ExecCmd.Seccomp) <= 65535)) && forall j int :: soff(msg.Fds) <= j && j < soff(msg.Fds) + len(msg.Fds) ==> 0 <= cell(msg.Fds, j) && cell(msg.Fds, j) < 2147483648)
-//@   assigns P.st, S._all, FD._all, W._all, K._all, O._all
+//@   assigns P.st, S._all, FD._all, W._all, K._all, O._all, R._all
 //@   ensures result == nil ==> P.st == 0 || P.st == 9
 //@   case int(cmd.Cmd) == 5 && cmd.ExecCmd != nil:
 //@     assigns all(cmd.ExecCmd.Argv)
@@ -382,3 +383,23 @@ package container
 //@   loop 0: invariant -1 <= rangeindex && rangeindex < len(c.Mounts) && !M.pivoted && !M.detached && M.nm == 2 + rangeindex && 0 <= M.nrm && M.nrm <= 1 + rangeindex
 //@   loop 1: invariant -1 <= rangeindex && rangeindex < len(c.SymbolicLinks) && M.pivoted && M.detached && M.pivot_new == c.ContainerRoot && M.nm == 1 + len(c.Mounts)
 //@   loop 2: invariant -1 <= rangeindex && rangeindex < len(c.MaskPaths) && M.pivoted && M.detached && M.pivot_new == c.ContainerRoot && 0 <= M.nm && M.nm <= 2 + len(c.Mounts) + rangeindex
+
+// ---- C16: the container init is armed to die with the process that started it ----
+//@ func container.(*Builder).startContainer props C16
+//@   arith int
+//@   requires b != nil
+//@   callsite Start: assert @C16 c.SysProcAttr != nil && int(c.SysProcAttr.Pdeathsig) == 9
+//@ func container.newPassCredSocketPair props C16
+//@   arith int
+//@   assigns FD.closed
+//@   ensures result.2 == nil ==> result.0 != nil && result.0.UnixConn != nil && result.1 != nil && result.1.UnixConn != nil
+//@ func container.(*Builder).getIDMapping
+//@   trusted "builds the uid/gid mapping tables (plain data)"
+//@   pure
+//@ func container.newSocket
+//@   trusted "wraps the unix socket with gob encoder/decoder state"
+//@   pure
+//@   ensures result != nil && fresh(result)
+//@ func iface:container.CredGenerator.Get
+//@   assumed "user-supplied credential generator"
+//@   pure
